@@ -78,6 +78,17 @@ def run_case(case, ctx):
             for fp in fps:
                 for hname in ("kept", "kept-again", "reopened"):
                     ds = Dataset(b.h.root) if hname == "reopened" else b.h.ds
+                    if hname == "kept-again":
+                        # other uses of the handle in between (here: a
+                        # shuffled pass) must not change the unshuffled order
+                        oracles.guarded(
+                            ctx, "deterministic",
+                            ("iteration-raised", iface, "shuffled"),
+                            f"{iface} split={split} shuffled pass in between",
+                            lambda: dsops.read_all(
+                                ds, split, iface, repeat=False, shuffle=7,
+                                **({"file_parallelism": fp}
+                                   if fp is not None else {})))
                     opts = {"repeat": False, "shuffle": 0}
                     if fp is not None:
                         opts["file_parallelism"] = fp
